@@ -6,6 +6,8 @@
 //! no stored value equals c. "Correct statistics" means min <= v <= max in the column's
 //! logical sort order for min_value/max_value, and in SIGNED physical order for the
 //! deprecated min/max fields (that is what old writers produced, whatever the logical type).
+use glaredb_core::arrays::scalar::unwrap::{UnwrapI8, UnwrapI16, UnwrapI32, UnwrapI64, UnwrapU8, UnwrapU16, UnwrapU32, UnwrapU64};
+
 use super::*;
 use crate::kani_verif_support::*;
 
